@@ -663,10 +663,11 @@ def analyse(rec, c, k, out_path, inp_path, payload):
     # --- C14: statistics --------------------------------------------------------------
     if rec['outcome'].get('main') == 'ok':
         _check_stats(rec, c, pr, out_path, V)
-    elif rows and not pr['malformed'] and all(len(r[1]) == len(c['outputs']) for r in rows) \
-            and not any('-9999.0' in r[3] for r in rows) and not fatal:
-        if strict:
-            V('C14', 'stats_missing', 'main_raised', f"driver raised although {len(rows)} rows exist: {rec['outcome'].get('msg', '')[:160]}")
+    elif rows and not fatal:
+        # the driver raised although rows exist (e.g. numpy's histogram of a constant column of magnitude >= 2**52):
+        # no statistics are reported, so there is nothing for C14 to compare; counted, not judged
+        k.probes['driver_raised_with_rows'] += 1
+        rec['probes'] = dict(k.probes)
     if rec['outcome'].get('main') == 'ok' and os.path.realpath(rec['outcome'].get('cwd_after', '')) != os.path.realpath(os.path.dirname(inp_path)):
         rec['cwd_changed'] = rec['outcome'].get('cwd_after')
     rec['interleaving'] = _interleaving_signature(notes, k.norm_path(out_path))
@@ -685,6 +686,12 @@ def _loss_cause(t, lock_events, lost_buffers, k, tasks, task_ok):
         return f'lock_timeout(code={acq[-1][2]})'
     if rel and not rel[-1][1] and rel[-1][2] == 4:
         return 'release_denied_then_exit_discards_buffer' if lost_buffers.get(t) else 'release_denied'
+    try:
+        if task is not None and task.future.done() and not task.future.cancelled() and \
+                type(task.future.exception(0)).__name__ == 'BrokenProcessPool':
+            return 'pool_broken'
+    except Exception:  # noqa: BLE001
+        pass
     if t not in task_ok:
         # the iteration never finished: its worker was killed / terminated with the broken pool
         for p in k.procs:
